@@ -180,6 +180,12 @@ class Boom(Exception):
     pass
 
 
+class BoomBase(BaseException):
+    """a failure that is not an Exception (KeyboardInterrupt while a user callable runs, SystemExit, GeneratorExit):
+    'however the call ends' includes these"""
+
+
+
 def apis():
     """(name, guarded-by-with?, callable(fail_at) -> runs the API with a user callable failing at its
     `fail_at`-th evaluation (None: no failure))"""
@@ -200,7 +206,7 @@ def apis():
             if st["armed"]:
                 st["n"] += 1
                 if fail_at is not None and st["n"] == fail_at:
-                    raise Boom()
+                    raise (BoomBase() if fail_at % 2 == 0 else Boom())      # every second failure point: not an Exception
         return st, tick
 
     def tempo(fail_at):
@@ -483,7 +489,7 @@ def run(chk):
                 raised = False
                 try:
                     quiet(fn, k)
-                except Boom:
+                except (Boom, BoomBase):
                     raised = True
                 except Exception as ex:
                     chk.disagree("bracket harness", f"{name}: unexpected {ex!r}")
